@@ -197,6 +197,9 @@ type c07Gate struct {
 	// Catchup > 0: the stream was reopened after a server rollback: the observer drops document events at or below this
 	// position (already checkpointed) - the first event above it ends the catch-up and waits at the gate like any other
 	Catchup uint64 `json:"catchup,omitempty"`
+	// SnapType: the snapshot type bits of the markers (1 memory, 2 disk = a backfill, 4 checkpoint, 16 history ...): what the
+	// active node read from its disk has not necessarily been persisted by every replica - the gate applies all the same
+	SnapType uint32 `json:"snap_type,omitempty"`
 }
 
 // seqno of any event the observer hands to the stream (document, system, seqno-advanced)
@@ -267,7 +270,7 @@ func c07ExecGate(sc c07Gate) (string, map[string]bool) {
 		if len(sc.Events) == 0 {
 			return
 		}
-		obs.SnapshotMarker(models.DcpSnapshotMarker{VbID: 3, StartSeqNo: sc.Events[0], EndSeqNo: sc.Events[len(sc.Events)-1]})
+		obs.SnapshotMarker(models.DcpSnapshotMarker{VbID: 3, StartSeqNo: sc.Events[0], EndSeqNo: sc.Events[len(sc.Events)-1], SnapshotType: gocbcore.SnapshotState(sc.SnapType)})
 		for i, s := range sc.Events {
 			kind := "mut"
 			if len(sc.Kinds) > 0 {
@@ -276,7 +279,7 @@ func c07ExecGate(sc c07Gate) (string, map[string]bool) {
 			if kind == "adv" && i+1 < len(sc.Events) {
 				// a seqno-advanced event closes its snapshot: the server announces the next one
 				feedEvent(obs, 3, srvEvent{Seq: s, Kind: kind, Key: "k"})
-				obs.SnapshotMarker(models.DcpSnapshotMarker{VbID: 3, StartSeqNo: sc.Events[i+1], EndSeqNo: sc.Events[len(sc.Events)-1]})
+				obs.SnapshotMarker(models.DcpSnapshotMarker{VbID: 3, StartSeqNo: sc.Events[i+1], EndSeqNo: sc.Events[len(sc.Events)-1], SnapshotType: gocbcore.SnapshotState(sc.SnapType)})
 			} else {
 				feedEvent(obs, 3, srvEvent{Seq: s, Kind: kind, Key: "k"})
 			}
@@ -397,6 +400,7 @@ func TestC07_Gate(t *testing.T) {
 		if n > 0 && rapid.IntRange(0, 2).Draw(rt, "catchup") == 0 {
 			sc.Catchup = rapid.Uint64Range(1, seq).Draw(rt, "catchupat")
 		}
+		sc.SnapType = rapid.SampledFrom([]uint32{0, 1, 1, 2, 2, 6, 5, 18}).Draw(rt, "snaptype")
 		if rapid.Bool().Draw(rt, "mixedkinds") {
 			sc.Kinds = rapid.SliceOfN(rapid.SampledFrom([]string{"mut", "mut", "del", "exp", "adv", "adv", "cc", "cd", "cf", "sc", "sd", "cm"}), 1, 8).Draw(rt, "kinds")
 		}
